@@ -64,6 +64,8 @@ func genFrame(t *Tape, maxLen int) []byte {
 		n = 254 // exactly one full block
 	case 3:
 		n = 255
+	case 4:
+		n = maxLen - t.Draw(8) // close to the largest frame
 	default:
 		n = 1 + t.Draw(maxLen)
 	}
@@ -146,6 +148,13 @@ func runC16(s *Sim) {
 		off := wl.Draw(len(stream))
 		n := 1 + wl.Draw(4)
 		kind := wl.Draw(3)
+		if nFrames > 1 && wl.Chance(1, 5) {
+			// aimed at the two delimiters between two neighbouring frames (terminator and leading delimiter): both
+			// frames run into each other, which is how a run longer than the reader's limits comes about
+			i := wl.Draw(nFrames - 1)
+			off, n = ends[i]-1, 2
+			kind = wl.Draw(2) // overwrite or drop
+		}
 		if kind != 2 && off+n > len(stream) {
 			n = len(stream) - off
 		}
@@ -163,6 +172,9 @@ func runC16(s *Sim) {
 			}
 			for i := 0; i < n; i++ {
 				stream[off+i] = byte(wl.Raw())
+				if stream[off+i] == 0 && wl.Chance(1, 2) {
+					stream[off+i] = 0x55
+				}
 			}
 			damage = fmt.Sprintf("overwrite %d bytes at %d", n, off)
 			dmgStart, dmgEnd = off, off+n
@@ -225,7 +237,7 @@ func runC16(s *Sim) {
 		}
 	}
 	r := client.NewCobsWrapper(rd, 600)
-	bufLen := []int{602, 700, 4096}[s.SCH.Draw(3)]
+	bufLen := []int{602, 700, 4096, 600}[s.SCH.Draw(4)] // 600: the caller's buffer is exactly the configured maximum, as the serial client's is
 	var got [][]byte
 	nErr := 0
 	for i := 0; i < 10*len(stream)+20; i++ {
